@@ -3,6 +3,7 @@ package main
 // memFS: a small in-memory backend for the request server (own store: never sftp.InMemHandler).
 
 import (
+	"errors"
 	"io"
 	"os"
 	"sync"
@@ -14,11 +15,38 @@ import (
 type memFile struct {
 	mu   sync.Mutex
 	data []byte
+	// failure plans, keyed by the offset of the ReadAt / WriteAt call: the call fails with an error that the request server
+	// turns into the given status code. A failing ReadAt first fills in the bytes it "did get" (all but the last one) and
+	// returns their count with the error, as io.ReaderAt allows; a failing WriteAt stores nothing.
+	rfail, wfail map[uint64]uint32
 }
+
+func memPlanErr(code uint32) error {
+	switch code {
+	case 2:
+		return os.ErrNotExist
+	case 3:
+		return os.ErrPermission
+	case 8:
+		return sftp.ErrSSHFxOpUnsupported
+	}
+	return errMemBadRegion
+}
+
+var errMemBadRegion = errors.New("memFile: unreadable region")
 
 func (f *memFile) ReadAt(b []byte, off int64) (int, error) {
 	f.mu.Lock()
 	defer f.mu.Unlock()
+	if code, bad := f.rfail[uint64(off)]; bad {
+		n := 0
+		if off < int64(len(f.data)) {
+			if n = copy(b, f.data[off:]); n == len(b) && n > 0 {
+				n--
+			}
+		}
+		return n, memPlanErr(code)
+	}
 	if off >= int64(len(f.data)) {
 		return 0, io.EOF
 	}
@@ -31,6 +59,9 @@ func (f *memFile) ReadAt(b []byte, off int64) (int, error) {
 func (f *memFile) WriteAt(b []byte, off int64) (int, error) {
 	f.mu.Lock()
 	defer f.mu.Unlock()
+	if code, bad := f.wfail[uint64(off)]; bad {
+		return 0, memPlanErr(code)
+	}
 	if need := int(off) + len(b); len(b) > 0 && need > len(f.data) {
 		f.data = append(f.data, make([]byte, need-len(f.data))...)
 	}
